@@ -67,10 +67,8 @@ Lemma eq_step_inside attrs op np len a :
   In a (eq_step attrs op np len) -> inside np (np + len) a.
 Proof.
   unfold eq_step. rewrite in_flat_map. intros [x [_ H]].
-  destruct (inter x op (op + len)) as [[os oe]|] eqn:E.
-  - apply inter_spec in E. destruct H as [H|[]]. subst a. unfold inside. cbn. lia.
-  - destruct ((a_start x =? a_end x) && (op <=? a_start x) && (a_start x <? op + len)) eqn:M; [|destruct H].
-    destruct H as [H|[]]. subst a. unfold inside. cbn. lia.
+  destruct (inter x op (op + len)) as [[os oe]|] eqn:E; [|destruct H].
+  apply inter_spec in E. destruct H as [H|[]]. subst a. unfold inside. cbn. lia.
 Qed.
 
 Lemma insertions_bound segs : forall np r,
@@ -1307,11 +1305,9 @@ Lemma eq_step_covers attrs op np len k au ts : k < len ->
 Proof.
   intros Hk. unfold covers, eq_step. split.
   - intros [a [Ha [A [B [C D]]]]]. apply in_flat_map in Ha. destruct Ha as [x [Hx Ha]].
-    destruct (inter x op (op + len)) as [[os oe]|] eqn:E.
-    + apply inter_spec in E. destruct Ha as [Ha|[]]. subst a. cbn in *.
-      exists x. repeat split; auto; lia.
-    + destruct ((a_start x =? a_end x) && (op <=? a_start x) && (a_start x <? op + len)); [|destruct Ha].
-      destruct Ha as [Ha|[]]. subst a. cbn in *. lia.
+    destruct (inter x op (op + len)) as [[os oe]|] eqn:E; [|destruct Ha].
+    apply inter_spec in E. destruct Ha as [Ha|[]]. subst a. cbn in *.
+    exists x. repeat split; auto; lia.
   - intros [x [Hx [A [B [C D]]]]].
     exists (mkAttr (np + (N.max (a_start x) op - op))
                    (np + (N.max (a_start x) op - op) + (N.min (a_end x) (op + len) - N.max (a_start x) op))
@@ -1572,17 +1568,6 @@ Definition wK3_facts : facts := mkFacts
   [].
 Definition wK3_out : list attr := [mkAttr 0 4 [104; 117; 109; 97; 110] 1; mkAttr 2 2 [97; 105; 95; 49] 9].
 
-(* wK3b: old='abc\nxyz\n' new='Q\nabc\nxyz\n' attrs=[(0, 8, 'human', 1), (6, 6, 'ai_2', 9)] author='ai_9' ts=100 *)
-Definition wK3b_old : list N := [97; 98; 99; 10; 120; 121; 122; 10].
-Definition wK3b_new : list N := [81; 10; 97; 98; 99; 10; 120; 121; 122; 10].
-Definition wK3b_attrs : list attr := [mkAttr 0 8 [104; 117; 109; 97; 110] 1; mkAttr 6 6 [97; 105; 95; 50] 9].
-Definition wK3b_author : list N := [97; 105; 95; 57].
-Definition wK3b_facts : facts := mkFacts
-  [(DIns, [81]); (DIns, [10]); (DEq, [97; 98; 99; 10; 120; 121; 122; 10])]
-  [(0, 1)]
-  [].
-Definition wK3b_out : list attr := [mkAttr 0 2 [97; 105; 95; 57] 100; mkAttr 2 10 [104; 117; 109; 97; 110] 1; mkAttr 8 8 [97; 105; 95; 50] 9].
-
 (* wOK: old='aaa\nbbb\nccc\nX\nY\nZ\n' new='X\nY\nZ\naaa\nbbb\nccc\nnew é\n' attrs=[(0, 12, 'ai_1', 5), (12, 18, 'human', 3)] author='ai_9' ts=100 *)
 Definition wOK_old : list N := [97; 97; 97; 10; 98; 98; 98; 10; 99; 99; 99; 10; 88; 10; 89; 10; 90; 10].
 Definition wOK_new : list N := [88; 10; 89; 10; 90; 10; 97; 97; 97; 10; 98; 98; 98; 10; 99; 99; 99; 10; 110; 101; 119; 32; 195; 169; 10].
@@ -1635,14 +1620,17 @@ Lemma regression_tie :
   res_lines_eqb (update_lines wK2b_old wK2b_attrs wK2b_author 100 wK2b_facts) (to_lines wK2b_attrs wK2b_old) = true.
 Proof. repeat split; vm_compute; reflexivity. Qed.
 
-(* a zero-length prior (formerly class C16-K3) survives an identical text and moves along with an
-   unchanged segment *)
-Lemma regression_marker :
-  update wK3_attrs wK3_author 100 wK3_facts = Ok wK3_attrs /\
-  res_lines_eqb (update_lines wK3_old wK3_attrs wK3_author 100 wK3_facts) (to_lines wK3_attrs wK3_old) = true /\
-  update wK3b_attrs wK3b_author 100 wK3b_facts = Ok wK3b_out /\
-  In (mkAttr 8 8 [97; 105; 95; 50] 9) wK3b_out.
-Proof. repeat split; try (vm_compute; reflexivity). vm_compute. tauto. Qed.
+(* class C16-K3: a zero-length prior (deletion marker) does not survive an update, not even of an
+   unchanged text, so the line it decided goes back to its previous author *)
+Lemma identity_marker_refuted :
+  exists old attrs author ts f,
+    wf_diff old old f = true /\ f_segs f = [(DEq, old)] /\ f_moves f = [] /\
+    forallb attr_ordered attrs = true /\ valid_utf8 old = true /\
+    res_lines_eqb (update_lines old attrs author ts f) (to_lines attrs old) = false.
+Proof.
+  exists wK3_old, wK3_attrs, wK3_author, 100, wK3_facts.
+  repeat split; vm_compute; reflexivity.
+Qed.
 
 (* the round trip without its side condition: overlapping line attributions, or a range that ends
    beyond the last line (dropped entirely by line_attributions_to_attributions) *)
@@ -1697,19 +1685,16 @@ Proof. unfold sort2. induction l as [|x t IH]; cbn [sort_by]; [exact I|]. apply 
 Lemma sort2_idem l : sort2 (sort2 l) = sort2 l.
 Proof. apply (sort_by_id le2). apply sort2_adj. Qed.
 
-(* non-empty ranges inside the text, or zero-length markers before its end *)
-Definition in_text (len : N) (a : attr) : Prop :=
-  (a_start a < a_end a /\ a_end a <= len) \/ (a_start a = a_end a /\ a_start a < len).
+(* non-empty ranges inside the text *)
+Definition in_text (len : N) (a : attr) : Prop := a_start a < a_end a /\ a_end a <= len.
 
 Lemma eq_step_id len : forall l, Forall (in_text len) l -> eq_step l 0 0 len = l.
 Proof.
   induction l as [|a t IH]; intros H; [reflexivity|]. inversion H as [|? ? Ha Ht]; subst.
   unfold eq_step in *. cbn [flat_map]. rewrite (IH Ht). unfold inter.
   destruct a as [s e u t0]. cbn [a_start a_end a_author a_ts] in *.
-  destruct Ha as [[A B]|[A B]]; cbn [a_start a_end] in *.
-  - replace (N.max s 0 <? N.min e (0 + len)) with true by lia. cbn [app]. f_equal. f_equal; lia.
-  - replace (N.max s 0 <? N.min e (0 + len)) with false by lia.
-    replace ((s =? e) && (0 <=? s) && (s <? 0 + len)) with true by lia. cbn [app]. f_equal. f_equal; lia.
+  destruct Ha as [A B]; cbn [a_start a_end] in *.
+  replace (N.max s 0 <? N.min e (0 + len)) with true by lia. cbn [app]. f_equal. f_equal; lia.
 Qed.
 
 (* a list in merge-normal form whose entries lie in the text is returned unchanged by an update
@@ -1724,38 +1709,6 @@ Proof.
   - unfold merge. rewrite sort2_idem. exact (f_equal Ok Hm).
   - apply Forall_forall. intros a Ha. unfold sort2 in Ha. rewrite sort_by_In in Ha.
     rewrite Forall_forall in Hf. auto.
-Qed.
-
-(* ================================================================== deletion markers survive unchanged text *)
-Lemma eq_step_marker attrs op np len a :
-  In a attrs -> a_start a = a_end a -> op <= a_start a -> a_start a < op + len ->
-  In (mkAttr (np + (a_start a - op)) (np + (a_start a - op)) (a_author a) (a_ts a)) (eq_step attrs op np len).
-Proof.
-  intros Ha Hz H1 H2. unfold eq_step. apply in_flat_map. exists a. split; auto.
-  unfold inter. replace (N.max (a_start a) op <? N.min (a_end a) (op + len)) with false by lia.
-  replace ((a_start a =? a_end a) && (op <=? a_start a) && (a_start a <? op + len)) with true by lia.
-  left. reflexivity.
-Qed.
-
-Theorem equal_keeps_markers : forall attrs author ts f out pre d post a,
-  f_segs f = pre ++ (DEq, d) :: post ->
-  update attrs author ts f = Ok out ->
-  In a attrs -> a_start a = a_end a ->
-  blen (cat_old pre) <= a_start a -> a_start a < blen (cat_old pre) + blen d ->
-  In (mkAttr (blen (cat_new pre) + (a_start a - blen (cat_old pre)))
-             (blen (cat_new pre) + (a_start a - blen (cat_old pre))) (a_author a) (a_ts a)) out.
-Proof.
-  intros attrs author ts f out pre d post a Hsegs H Ha Hz H1 H2.
-  unfold update in H. destruct (transform f (sort2 attrs) author ts) as [l|] eqn:E; [|discriminate].
-  inversion H; subst out. apply merge_markers; [|reflexivity].
-  unfold transform in E. rewrite Hsegs in E at 1. apply transform_go_app in E.
-  destruct E as [l1 [l2 [pw' [last' [E1 [E2 E3]]]]]].
-  replace (0 + blen (cat_old pre)) with (blen (cat_old pre)) in E2 by lia.
-  replace (0 + blen (cat_new pre)) with (blen (cat_new pre)) in E2 by lia.
-  cbn [transform_go] in E2.
-  match type of E2 with match ?X with _ => _ end = _ => destruct X as [r|] eqn:E4; [|discriminate] end.
-  inversion E2; subst l2. subst l. apply in_or_app. right. apply in_or_app. left.
-  apply eq_step_marker; auto. unfold sort2. rewrite sort_by_In. exact Ha.
 Qed.
 
 (* ================================================================== merge keeps the line attributions *)
@@ -2248,7 +2201,7 @@ Proof.
 Qed.
 
 (* ================================================================== identical text, arbitrary priors *)
-Definition ordered (a : attr) : Prop := a_start a <= a_end a.
+Definition ordered (a : attr) : Prop := a_start a < a_end a.   (* a proper range: start < end *)
 Definition le2R (a b : attr) : Prop := le2 a b = true.
 
 Lemma insert_ssorted x : forall l, StronglySorted le2R l -> StronglySorted le2R (insert_by le2 x l).
@@ -2279,26 +2232,21 @@ Qed.
 Definition clipf (len : N) (a : attr) : list attr :=
   match inter a 0 (0 + len) with
   | Some (os, oe) => [mkAttr (0 + (os - 0)) (0 + (os - 0) + (oe - os)) (a_author a) (a_ts a)]
-  | None => if (a_start a =? a_end a) && (0 <=? a_start a) && (a_start a <? 0 + len)
-            then [mkAttr (0 + (a_start a - 0)) (0 + (a_start a - 0)) (a_author a) (a_ts a)] else []
+  | None => []
   end.
 
 Lemma eq_step_clipf len l : eq_step l 0 0 len = flat_map (clipf len) l.
 Proof. reflexivity. Qed.
 
-Lemma clipf_cases len a : a_start a <= a_end a ->
+Lemma clipf_cases len a : a_start a < a_end a ->
   (a_start a < len /\ clipf len a = [mkAttr (a_start a) (N.min (a_end a) len) (a_author a) (a_ts a)]) \/
   (len <= a_start a /\ clipf len a = []).
 Proof.
   intros Ho. unfold clipf, inter.
   destruct (N.ltb_spec (a_start a) len) as [L|L]; [left|right]; split; auto.
-  - destruct (N.max (a_start a) 0 <? N.min (a_end a) (0 + len)) eqn:E.
-    + f_equal. f_equal; lia.
-    + replace ((a_start a =? a_end a) && (0 <=? a_start a) && (a_start a <? 0 + len)) with true by lia.
-      f_equal. f_equal; lia.
-  - replace (N.max (a_start a) 0 <? N.min (a_end a) (0 + len)) with false by lia.
-    replace ((a_start a =? a_end a) && (0 <=? a_start a) && (a_start a <? 0 + len)) with false by lia.
-    reflexivity.
+  - replace (N.max (a_start a) 0 <? N.min (a_end a) (0 + len)) with true by lia.
+    f_equal. f_equal; lia.
+  - replace (N.max (a_start a) 0 <? N.min (a_end a) (0 + len)) with false by lia. reflexivity.
 Qed.
 
 Lemma clip_ssorted len : forall l, Forall ordered l -> StronglySorted le2R l ->
@@ -2409,8 +2357,9 @@ Proof.
     exfalso. unfold S, sort2 in EE. cbn in EE. discriminate.
 Qed.
 
-(* without start <= end the statement is false: a prior with start > end counts as a candidate of a
-   whitespace-only line it straddles, and is dropped by the update *)
+(* without start < end the statement is false: a zero-length prior is class C16-K3
+   (identity_marker_refuted), and a prior with start > end counts as a candidate of a whitespace-only
+   line it straddles and is dropped by the update *)
 Lemma identity_inverted_refuted :
   exists old attrs author ts,
     valid_utf8 old = true /\
